@@ -19,33 +19,44 @@ def csNameOf (abbr : Bool) : Kind → Bytes
   | .rgb8 => if abbr then nRGB else nDeviceRGB
   | .bit1 => if abbr then nG else nDeviceGray
 
-/-- The operands a writer puts between `BI` and `ID` (abbreviated or full key names). -/
-def writerObjs (abbr : Bool) (k : Kind) (w h : Nat) : List Val :=
-  if abbr then
-    [.name kW, .int w, .name kH, .int h, .name kBPC, .int (bpcOf k), .name kCS, .name (csNameOf abbr k)]
-  else
-    [.name kWidth, .int w, .name kHeight, .int h, .name kBitsPerComponent, .int (bpcOf k), .name kColorSpace,
-     .name (csNameOf abbr k)]
+/-- How a writer spells the four entries: each key short (`/W /H /BPC /CS`) or in full, and the
+    colour space value short (`/G`, `/RGB`) or in full — every mixture is valid between BI and ID. -/
+structure Spell where
+  kw : Bool
+  kh : Bool
+  kb : Bool
+  kc : Bool
+  vc : Bool
+  deriving DecidableEq, Repr
 
-def writerDict (abbr : Bool) (k : Kind) (w h : Nat) : Dict :=
-  if abbr then
-    [(kW, .int w), (kH, .int h), (kBPC, .int (bpcOf k)), (kCS, .name (csNameOf abbr k))]
-  else
-    [(kWidth, .int w), (kHeight, .int h), (kBitsPerComponent, .int (bpcOf k)), (kColorSpace, .name (csNameOf abbr k))]
+def Spell.keyW (s : Spell) : Bytes := if s.kw then kW else kWidth
+def Spell.keyH (s : Spell) : Bytes := if s.kh then kH else kHeight
+def Spell.keyB (s : Spell) : Bytes := if s.kb then kBPC else kBitsPerComponent
+def Spell.keyC (s : Spell) : Bytes := if s.kc then kCS else kColorSpace
 
-theorem assemble_writer (abbr : Bool) (k : Kind) (w h : Nat) :
-    assemble (writerObjs abbr k w h) = .ok (writerDict abbr k w h) := by
-  cases abbr <;> cases k <;>
-    simp (config := { decide := true }) [assemble, assembleFrom, dictSet, writerObjs, writerDict, kW, kWidth, kH, kHeight,
-      kBPC, kBitsPerComponent, kCS, kColorSpace]
+/-- The operands a writer puts between `BI` and `ID`. -/
+def writerObjs (s : Spell) (k : Kind) (w h : Nat) : List Val :=
+  [.name s.keyW, .int w, .name s.keyH, .int h, .name s.keyB, .int (bpcOf k), .name s.keyC, .name (csNameOf s.vc k)]
 
-theorem eos_writer (abbr : Bool) (k : Kind) (w h : Nat) : eosOf (writerDict abbr k w h) = .ok EI := by
-  cases abbr <;> cases k <;> rfl
+def writerDict (s : Spell) (k : Kind) (w h : Nat) : Dict :=
+  [(s.keyW, .int w), (s.keyH, .int h), (s.keyB, .int (bpcOf k)), (s.keyC, .name (csNameOf s.vc k))]
 
-theorem doEI_writer (abbr : Bool) (k : Kind) (w h : Nat) :
-    doEI (writerDict abbr k w h) =
-      some ⟨.int w, .int h, .int (bpcOf k), [some (.name (csNameOf abbr k))], none⟩ := by
-  cases abbr <;> cases k <;> rfl
+theorem assemble_writer (s : Spell) (k : Kind) (w h : Nat) :
+    assemble (writerObjs s k w h) = .ok (writerDict s k w h) := by
+  obtain ⟨kw, kh, kb, kc, vc⟩ := s
+  cases kw <;> cases kh <;> cases kb <;> cases kc <;>
+    simp (config := { decide := true }) [assemble, assembleFrom, dictSet, writerObjs, writerDict, Spell.keyW, Spell.keyH,
+      Spell.keyB, Spell.keyC, kW, kWidth, kH, kHeight, kBPC, kBitsPerComponent, kCS, kColorSpace]
+
+theorem eos_writer (s : Spell) (k : Kind) (w h : Nat) : eosOf (writerDict s k w h) = .ok EI := by
+  obtain ⟨kw, kh, kb, kc, vc⟩ := s
+  cases kw <;> cases kh <;> cases kb <;> cases kc <;> rfl
+
+theorem doEI_writer (s : Spell) (k : Kind) (w h : Nat) :
+    doEI (writerDict s k w h) =
+      some ⟨.int w, .int h, .int (bpcOf k), [some (.name (csNameOf s.vc k))], none⟩ := by
+  obtain ⟨kw, kh, kb, kc, vc⟩ := s
+  cases kw <;> cases kh <;> cases kb <;> cases kc <;> rfl
 
 theorem data_size_rows (k : Kind) (w h : Nat) (n : Int) (hn : n = if k = .rgb8 then 3 else 1) :
     (image_data_size (w : Int) (h : Int) (bpcOf k) n).toNat = h * rowBytes k w := by
@@ -61,18 +72,31 @@ theorem data_size_rows (k : Kind) (w h : Nat) (n : Int) (hn : n = if k = .rgb8 t
   rw [Int.fdiv_eq_ediv_of_nonneg _ (by omega)]
   cases k <;> simp only [bpcOf, rowBytes] <;> simp <;> omega
 
-theorem size_writer (abbr : Bool) (k : Kind) (w h : Nat) (hw : 1 ≤ w) (hh : 1 ≤ h) :
-    inlineSize (writerDict abbr k w h) = some (h * rowBytes k w) := by
+theorem get_writer (s : Spell) (k : Kind) (w h : Nat) :
+    getAny (writerDict s k w h) [kF, kFilter] = none ∧
+    getAny (writerDict s k w h) [kW, kWidth] = some (.int w) ∧
+    getAny (writerDict s k w h) [kH, kHeight] = some (.int h) ∧
+    getAny (writerDict s k w h) [kIM, kImageMask] = none ∧
+    getAny (writerDict s k w h) [kBPC, kBitsPerComponent] = some (.int (bpcOf k)) ∧
+    getAny (writerDict s k w h) [kCS, kColorSpace] = some (.name (csNameOf s.vc k)) := by
+  obtain ⟨kw, kh, kb, kc, vc⟩ := s
+  cases kw <;> cases kh <;> cases kb <;> cases kc <;> exact ⟨rfl, rfl, rfl, rfl, rfl, rfl⟩
+
+theorem size_writer (s : Spell) (k : Kind) (w h : Nat) (hw : 1 ≤ w) (hh : 1 ≤ h) :
+    inlineSize (writerDict s k w h) = some (h * rowBytes k w) := by
   have hwp : ((w : Int) > 0) := by omega
   have hhp : ((h : Int) > 0) := by omega
   have h1 := data_size_rows .gray8 w h 1 (by decide)
   have h2 := data_size_rows .rgb8 w h 3 (by decide)
   have h3 := data_size_rows .bit1 w h 1 (by decide)
   simp only [bpcOf] at h1 h2 h3
-  cases abbr <;> cases k <;>
-    simp (config := { decide := true }) [inlineSize, writerDict, getAny, lookup, kF, kFilter, kW, kWidth, kH, kHeight, kBPC,
-      kBitsPerComponent, kCS, kColorSpace, kIM, kImageMask, csNameOf, bpcOf, posInt, isPyTrue, componentsOf, inlineComponents,
-      nG, nRGB, nDeviceGray, nDeviceRGB, hwp, hhp, h1, h2, h3] <;>
+  obtain ⟨g1, g2, g3, g4, g5, g6⟩ := get_writer s k w h
+  unfold inlineSize
+  rw [g1, g2, g3, g4, g5, g6]
+  obtain ⟨kw, kh, kb, kc, vc⟩ := s
+  cases vc <;> cases k <;>
+    simp (config := { decide := true }) [csNameOf, bpcOf, posInt, isPyTrue, componentsOf, inlineComponents,
+      nG, nRGB, nDeviceGray, nDeviceRGB] <;>
     rw [if_pos (by omega), if_pos (by omega)] <;> simp only [h1, h2, h3]
 
 end PdfVerif.InlineDictLemmas
